@@ -71,7 +71,8 @@ theorem nat_toU8 (l : List Nat) (h : ∀ x ∈ l, x < 256) : nat (toU8 l) = l :=
 
 /-- **the reader's parse of the exported container** -/
 theorem parseFile_getMds {b : Built} {bank : List (List Nat)} {group pcm f : Bytes} (h : getMds b bank group pcm = .ok f)
-    (hsmall : ∀ ts, (mdsTree (toU8 b.seq) group pcm ts).small) (hbyte : ∀ x ∈ b.seq, x < 256) :
+    (hsmall : ∀ ts, entryTrees b.conv.subList.length b.conv.macroList.length bank (usedSorted b.conv) = some ts →
+      (mdsTree (toU8 b.seq) group pcm ts).small) (hbyte : ∀ x ∈ b.seq, x < 256) :
     parseFile f = .ok { version := [MDSDRV_SEQ_VERSION_MAJOR, MDSDRV_SEQ_VERSION_MINOR], group := nat group, seq := b.seq,
                         entries := entriesOf b.conv.subList.length b.conv.macroList.length bank (usedSorted b.conv),
                         pcm := nat pcm } := by
@@ -83,7 +84,7 @@ theorem parseFile_getMds {b : Built} {bank : List (List Nat)} {group pcm f : Byt
       obtain ⟨p, hp | hp⟩ := hk t ht <;> subst hp <;> exact ⟨by decide, by decide⟩
     exact ⟨by decide, by decide, ⟨by decide, by decide⟩, ⟨by decide, by decide⟩, ⟨by decide, by decide⟩,
       ⟨by decide, by decide, hts'⟩, ⟨by decide, by decide⟩, trivial⟩
-  obtain ⟨f', hf', hw⟩ := Riff.C13_walk_serialize _ hwf (hsmall ts)
+  obtain ⟨f', hf', hw⟩ := Riff.C13_walk_serialize _ hwf (hsmall ts hts)
   rw [hser] at hf'
   cases hf'
   obtain ⟨hm, _⟩ := mapM_parse _ _ _ _ _ hts
